@@ -165,6 +165,20 @@ func OracleC10(tr *Trace) Verdict {
 				}
 			}
 			if !ok {
+				// ... and the lower-priority leader keeps the record for the whole window unless one of the
+				// instances that satisfy the clause takes it: a record that went to somebody who does not lead
+				// (the takeover write of an instance that was being stopped completed, say) is not a record x
+				// is entitled to preempt, and the leader it was running next to is gone
+				foreign := false
+				for _, o := range tr.Ownership(in.Group) {
+					if o.Live() && o.FromT > t && o.FromT <= t+3*p.H && !(o.LibOK && o.Lib.ID == p.Instances[c.Inst].ID && o.Lib.Token == c.Token) {
+						foreign = true
+					}
+				}
+				if foreign {
+					v.Classes = append(v.Classes, "promptness-skipped:record-went-to-a-non-leader-inside-the-window")
+					continue
+				}
 				v.Viols = append(v.Viols, Viol{At: t + 3*p.H, Sig: "C10 higher-priority-instance-not-leader-within-3H",
 					Msg: fmt.Sprintf("%s (priority %d, takeover enabled) runs since %v next to leader %s#%d (priority %d, leading since %v); no strictly higher-priority enabled instance became leader by %v (3 heartbeat intervals)", in.ID, in.Priority, sx, tr.ID(c.Inst), c.Obj, storedPrio(c), c.FromT, t+3*p.H)})
 			}
